@@ -702,7 +702,7 @@ func valueDesc(v ssa.Value) string {
 		}
 		return x.String()
 	case *ssa.Global:
-		return x.Name()
+		return canonGlobalName(x) // the name rules and keys know the variable by (stable under a rename)
 	case *ssa.Phi:
 		if x.Comment != "" {
 			return x.Comment
